@@ -178,8 +178,13 @@ class Excel_EAMTabulation(_EAMTabulationAbstractbase):
 
   def _build_workbook(self):
     self._inner_tabulation = Excel_PairTabulation(self.potentials, self.cutoff, self.nr)
-    wb = self._inner_tabulation.workbook
-    self._add_sheets(wb)
+    try:
+      wb = self._inner_tabulation.workbook
+      self._add_sheets(wb)
+    except Exception:
+      # Do not keep a half populated workbook: a later write() must build it again (or fail again)
+      self._inner_tabulation = None
+      raise
 
   def _add_sheets(self, wb):
     self._add_eam_density(wb)
